@@ -157,6 +157,10 @@ def run_unit(pid, unit, tier, seed):
         base = json.load(open(bpath))
         for fn in base["functions"]:
             f = r["functions"].get(fn)
+            # obligations generated per call site of the source (unit locks): their existence follows the shape of the code, a
+            # call site that is gone is not a lost proof; the vacuity guard prop_lock_regions_seen stays required
+            if f is None and fn.split("::")[-1].startswith("prop_lock_") and not fn.endswith("prop_lock_regions_seen"):
+                continue
             if f is None:
                 res["undecided"].append("baseline obligation lost: %s (unit %s)" % (fn, unit))
             elif not f["success"] and not res["failures"]:
